@@ -516,7 +516,61 @@ func (in *instance) step(o Op, sets []VarSet, dry *stepStats) (res string, st st
 
 var c05Opts = []string{"-", "-", "wce", "wced", "", "u", "mn", "wcemnd", "d"}
 
+// c05Lexemes are pieces of text that start, end or empty a lexical element of one of the languages.
+var c05Lexemes = []string{`""`, `''`, `"`, `'`, `"é`, `'é`, `"" `, `""(`, "(", ")", "[", "]", ",", "/*", "*/", "//", ".", "..", "-", "+", "e", "E+", "0x", "#", "@", `\`,
+	"\uFFFF", "\x00", "😀", "\uFEFF", "{{", "}}", "{{{", "}}}", "{{#", "{{/", "{{^", "{{!", "\r", "\n", "\r\n", ";", "|", "\t", " ", "1", "a", "é"}
+
+// c05Twins are characters that Unicode case mapping sends to an ASCII letter in one direction only
+// (dotted capital I, dotless i, Kelvin sign, long s): a spelling with one of them is a different word
+// for ToUpper-based and the same word for ToLower- or fold-based comparisons.
+var c05Twins = map[rune][]rune{'i': {0x130, 0x131}, 'I': {0x130, 0x131}, 'k': {0x212A}, 'K': {0x212A}, 's': {0x17F}, 'S': {0x17F}}
+
+// c05Damage applies 1-3 lexical edits to an input.
+func c05Damage(r *Rand, s string) string {
+	rs := []rune(s)
+	for n := r.Range(1, 3); n > 0; n-- {
+		k := 0
+		if len(rs) > 0 {
+			k = r.Intn(len(rs) + 1)
+		}
+		switch r.Intn(6) {
+		case 0: // delete a character
+			if k < len(rs) {
+				rs = append(rs[:k:k], rs[k+1:]...)
+			}
+		case 1: // double a character
+			if k < len(rs) {
+				rs = append(rs[:k+1:k+1], rs[k:]...)
+			}
+		case 2, 3: // insert a lexeme
+			lx := c05Lexemes[r.Intn(len(c05Lexemes))]
+			rs = append(rs[:k:k], append([]rune(lx), rs[k:]...)...)
+		case 4: // a letter becomes its one-way case twin
+			for j := 0; j < len(rs); j++ {
+				q := (k + j) % len(rs)
+				if tw, ok := c05Twins[rs[q]]; ok {
+					rs[q] = tw[r.Intn(len(tw))]
+					break
+				}
+			}
+		case 5: // cut the input short
+			if k < len(rs) && k > 0 {
+				rs = rs[:k]
+			}
+		}
+	}
+	return string(rs)
+}
+
 func c05Input(r *Rand, kind string) string {
+	s := c05InputPlain(r, kind)
+	if r.Bool(0.25) {
+		s = c05Damage(r, s)
+	}
+	return s
+}
+
+func c05InputPlain(r *Rand, kind string) string {
 	pool := c05Pool(kind)
 	if r.Bool(0.8) {
 		return pool[r.Intn(len(pool))]
